@@ -117,6 +117,16 @@ Proof.
   - split; [intros _; apply final_after_result|]. rewrite final_after_result. discriminate.
 Qed.
 
+Lemma CStep_set_final_rows v more s : CStep s (set_final_rows g v more s).
+Proof.
+  split; [|split].
+  - unfold set_final_rows. destruct (g && final_set (cancel_timer s)); [apply frameT_cancel|].
+    eapply frameT_trans; [apply frameT_cancel|repeat split].
+  - unfold set_final_rows. destruct (g && final_set (cancel_timer s)); [apply PStep_cancel|].
+    intros j t' Hn Hl. exact (PStep_cancel s j t' Hn Hl).
+  - split; [intros _; apply final_after_rows|]. rewrite final_after_rows. discriminate.
+Qed.
+
 Lemma CStep_set_final_exception e s : CStep s (set_final_exception g e s).
 Proof.
   split; [|split].
@@ -237,8 +247,17 @@ Proof.
       unfold time_remaining in E. rewrite HT in E. lia.
 Qed.
 
-Lemma CStep_retry reuse h s : CStep s (retry reuse h s).
-Proof. unfold retry. cbn. destruct (is_some (fexc s)); apply CStep_same; repeat split. Qed.
+Lemma CStep_retry reuse h s : CStep s (retry g reuse h s).
+Proof.
+  unfold retry. set (s1 := set_retries (retries s + 1) s).
+  assert (H1 : CStep s s1) by (apply CStep_same; repeat split).
+  destruct (is_some (fexc s1)); [exact H1|]. destruct (shut s1).
+  - eapply CStep_trans; [exact H1|apply CStep_set_final_exception].
+  - eapply CStep_trans; [exact H1|]. apply CStep_same; repeat split.
+Qed.
+
+Lemma CStep_start_refresh s : CStep s (start_refresh g s).
+Proof. unfold start_refresh. destruct (shut s); [apply CStep_set_final_result|apply CStep_same; repeat split]. Qed.
 
 Lemma CStep_start_chain s : CStep s (start_chain g s).
 Proof. unfold start_chain. destruct (ks_hosts (pools s)); [apply CStep_set_final_result|apply CStep_same; repeat split]. Qed.
@@ -252,14 +271,15 @@ Qed.
 
 Lemma CStep_set_result a h k s : CStep s (set_result g a h k s).
 Proof.
-  destruct k as [more| |d| | |]; [| |destruct d| | |]; cbn [set_result].
-  - eapply CStep_trans; [|apply CStep_set_final_result]. apply CStep_same; repeat split.
+  destruct k as [more| |d| | | |]; [| |destruct d| | | |]; cbn [set_result].
+  - apply CStep_set_final_rows.
   - apply CStep_set_final_result.
   - apply CStep_retry.
   - apply CStep_retry.
   - apply CStep_set_final_exception.
   - apply CStep_set_final_result.
   - apply CStep_set_final_exception.
+  - apply CStep_start_refresh.
   - apply CStep_start_chain.
   - destruct (CStep_set_final_exception g (10 + Z.of_nat a) (cancel_timer s)) as (F & P & _).
     apply CStep_final_intro.
@@ -351,10 +371,14 @@ Qed.
 
 Lemma att_set_result g a h k s : attempts (set_result g a h k s) = attempts s.
 Proof.
-  destruct k as [more| |d| | |]; [| |destruct d| | |]; cbn [set_result];
+  destruct k as [more| |d| | | |]; [| |destruct d| | | |]; cbn [set_result];
     rewrite ?att_set_final_result, ?att_set_final_exception; try reflexivity.
-  - unfold retry. cbn. destruct (is_some (fexc s)); reflexivity.
-  - unfold retry. cbn. destruct (is_some (fexc s)); reflexivity.
+  - destruct (rows_frame g (10 + Z.of_nat a) more s) as (r1 & _). exact r1.
+  - unfold retry. cbn. destruct (is_some (fexc s)); [reflexivity|]. destruct (shut s); [|reflexivity].
+    rewrite att_set_final_exception. reflexivity.
+  - unfold retry. cbn. destruct (is_some (fexc s)); [reflexivity|]. destruct (shut s); [|reflexivity].
+    rewrite att_set_final_exception. reflexivity.
+  - unfold start_refresh. destruct (shut s); [apply att_set_final_result|reflexivity].
   - unfold start_chain. destruct (ks_hosts (pools s)); [apply att_set_final_result|reflexivity].
   - destruct (fl_cancel s) as (h1 & _). exact h1.
 Qed.
@@ -503,7 +527,8 @@ Proof.
   assert (h1 : timeout s1 = Some T) by exact h1'.
   assert (h3 : P1 s1) by exact h3'.
   assert (hp : pstart s1 = now s1) by reflexivity.
-  assert (hne : attempts s1 <> []) by exact hne'.
+  assert (hne : attempts s1 <> []).
+  { unfold s1, page_reset. cbn. destruct (attempts s); [contradiction|discriminate]. }
   clearbody s1. clear h1' h3' hne'.
   set (s2 := set_start (now s1) (set_cur_timer None (cancel_timer s1))).
   set (s3 := start_timer s2). set (res := send_request true true s3). intros HL HS.
@@ -546,7 +571,7 @@ Proof.
   intros H Hp.
   assert (HL : LInv (step true true s o)) by (destruct H as (_ & _ & _ & _ & HL & _); apply LInv_step, HL).
   assert (HS : SInv (step true true s o)) by (destruct H as (_ & _ & _ & _ & _ & HS); apply SInv_step, HS).
-  destruct o as [|ps|d|a k|k|k|pl| | |c hh err]; cbn [step] in *.
+  destruct o as [|ps|d|a k|k|k|pl| | |c hh err| |kk]; cbn [step] in *.
   - (* Send *)
     eapply CInv_CStep; [exact H| |exact HL|exact HS|].
     + eapply CStep_trans; [|apply CStep_send_loop]. apply CStep_same; repeat split.
@@ -559,6 +584,8 @@ Proof.
     + intros Hf. exact (h4 Hf).
   - (* Resp *)
     destruct (nth_error (attempts s) a) as [at_|]; [|exact H]. destruct (aopen at_); [|exact H].
+    destruct (astale at_).
+    { eapply CInv_CStep; [exact H|apply CStep_same; repeat split|exact HL|exact HS|]. cbn. apply ne_upd_nth. }
     eapply CInv_CStep; [exact H| |exact HL|exact HS|].
     + eapply CStep_trans; [|apply CStep_set_result]. apply CStep_same; repeat split.
     + rewrite att_set_result. cbn. apply ne_upd_nth.
@@ -578,6 +605,11 @@ Proof.
   - destruct (result_call s); [|exact H].
     eapply CInv_CStep; [exact H|apply CStep_same; repeat split|exact HL|exact HS|tauto].
   - eapply CInv_CStep; [exact H|apply CStep_ks_report|exact HL|exact HS|]. rewrite att_ks_report. tauto.
+  - eapply CInv_CStep; [exact H|apply CStep_same; repeat split|exact HL|exact HS|tauto].
+  - destruct (refreshes s) as [|n]; [exact H|]. destruct (kk <=? n)%nat; [|exact H].
+    eapply CInv_CStep; [exact H| |exact HL|exact HS|].
+    + eapply CStep_trans; [|apply CStep_set_final_result]. apply CStep_same; repeat split.
+    + rewrite att_set_final_result. tauto.
 Qed.
 
 (* __init__ followed at once by Session.execute_async's send_request() *)
@@ -588,7 +620,7 @@ Proof.
   assert (HS : SInv (step true true (init c) Send)) by (apply SInv_step, SInv_init).
   cbn [step] in *. unfold init in *.
   set (s00 := mkState (c_plan c) [] None None None 0 [] None (c_specs c) None None false [] false
-                      (c_now c) (c_now c) (c_timeout c) (c_now c) [] (c_pools c) false false [] [] 0) in *.
+                      (c_now c) (c_now c) (c_timeout c) (c_now c) [] (c_pools c) false false [] [] 0 false 0) in *.
   set (s0 := set_started true (start_timer s00)) in *.
   assert (C0 : CStep s00 (start_timer s00)).
   { apply CStep_start_timer. intros T0 HT0. cbn in HT0. rewrite Hc in HT0. inversion HT0. cbn. lia. }
@@ -629,7 +661,7 @@ Proof.
   assert (HS : SInv (init c)) by apply SInv_init.
   unfold init in *.
   set (s00 := mkState (c_plan c) [] None None None 0 [] None (c_specs c) None None false [] false
-                      (c_now c) (c_now c) (c_timeout c) (c_now c) [] (c_pools c) false false [] [] 0) in *.
+                      (c_now c) (c_now c) (c_timeout c) (c_now c) [] (c_pools c) false false [] [] 0 false 0) in *.
   assert (C0 : CStep s00 (start_timer s00)).
   { apply CStep_start_timer. intros T0 HT0. cbn in HT0. rewrite Hc in HT0. inversion HT0. cbn. lia. }
   destruct (start_timer_nospec s00 eq_refl Hc Hsp) as (tn & Htn & Hln & Hk1 & Hd1).
